@@ -157,6 +157,13 @@ func genC05(rt *rapid.T) *FmtCase {
 			reg[k] = true
 		}
 	}
+	for _, k := range []string{"str", "int"} {
+		// builtin types registered as safe
+		if rapid.IntRange(0, 7).Draw(rt, "regbuiltin") == 3 {
+			c.Reg = append(c.Reg, k)
+			reg[k] = true
+		}
+	}
 	vc := &valConfig{maxDepth: 1}
 	fc := &fmtConfig{noStar: true, noZeroMinus: true, noW: true, noTp: true, validVerbs: true, noHugeNumbers: true}
 	n := rapid.IntRange(1, 3).Draw(rt, "ndirs")
@@ -199,4 +206,38 @@ func genC05(rt *rapid.T) *FmtCase {
 
 func TestC05Extents(t *testing.T) {
 	rapidCheck(t, "C05Extents", func(rt *rapid.T) interface{} { return genC05(rt) })
+}
+
+// ---- C05Join: JoinTo prints each value like Print does ------------------------------
+
+func genC05Join(rt *rapid.T) *C05Join {
+	s := &C05Join{Shape: pick(rt, "shape", []string{"strings", "strings", "ifaces", "ints", "regstrs", "array", "errors", "nstrs"})}
+	for _, k := range append(append([]string{}, regKindsAll...), "str", "int") {
+		if rapid.IntRange(0, 3).Draw(rt, "reg") == 0 {
+			s.Reg = append(s.Reg, k)
+		}
+	}
+	n := rapid.IntRange(0, 4).Draw(rt, "n")
+	vc := &valConfig{maxDepth: 1, noPointers: true}
+	for i := 0; i < n; i++ {
+		switch s.Shape {
+		case "ints":
+			s.Items = append(s.Items, vc.leafI(rt, "int", false))
+		case "ifaces":
+			s.Items = append(s.Items, vc.genVal(rt, 1, false))
+		default:
+			s.Items = append(s.Items, vc.leafS(rt, "str", false, false))
+		}
+	}
+	if rapid.Bool().Draw(rt, "safedelim") {
+		s.Delim = &PrintS{HasFmt: true, Fmt: B(lit(genText(rt, "delim", 2)))}
+	} else {
+		s.Delim = vc.genPrintSpec(rt, 1, false)
+	}
+	s.Pre = genHistory(rt, &opConfig{maxTok: 2}, 2)
+	return s
+}
+
+func TestC05Join(t *testing.T) {
+	rapidCheck(t, "C05Join", func(rt *rapid.T) interface{} { return genC05Join(rt) })
 }
